@@ -239,7 +239,20 @@ def check_C15(chk):
     for it in [i for i in items if F.nfds_of(i["case"]) in (64, 65)][:4]:
         chk.sample({"input": it["case"], "result": it["rec"] and it["rec"]["send"], "recv": it["rec"] and it["rec"]["recv"]})
     chk.assumptions += ["recvmsg installs at most as many descriptors as the control buffer holds and discards the rest (kernel; MSG_CTRUNC)"]
-    finish_proof(chk, proof_ok, fails, bad)
+    # "any value that send accepts arrives with all of its attachments" also for values whose serialisation itself sends values with
+    # attachments (every level's own attachments, correctly numbered): script driver shared with C14
+    from . import props_codec as PC
+    scases, sgot, sfails, stodo, sbad, serrors = PC.script_stage(chk, random.Random(chk.seed + 7), bins["default"], 1200 if thorough else 100, 3, tag="c15script")
+    chk.coverage["nested_send_values"] = len(scases)
+    chk.coverage["traces_validated_against_impl"] = chk.coverage.get("traces_validated_against_impl", 0) + len(stodo)
+    chk.coverage["correspondence_mismatches"] = chk.coverage.get("correspondence_mismatches", 0) + len(sbad)
+    if serrors:
+        chk.unproved("model evaluation (coqc on generated nested-send cases) failed", serrors[0][-1500:])
+    if sbad and not sfails and not fails:
+        c, r = sbad[0]
+        chk.unproved("correspondence TlsCheck.check_script: attachments of nested / enclosing messages differ from Tls.ipc_send on %d of %d values" % (len(sbad), len(stodo)),
+                     {"serializer_program": c["body"], "kinds": c["kinds"], "pre": c["pre"], "observed": r and r["result"]})
+    finish_proof(chk, proof_ok, fails + sfails, bad + sbad)
 
 
 # ------------------------------------------------------------------ C18
